@@ -37,6 +37,8 @@ const (
 	NativeNilExec    = "nnilexec"    // native only: return (nil, nil)
 	NativeNilBs      = "nnilbs"      // native only: return (execution with nil bindings, nil)
 	MutateDeep       = "mutdeep"     // A = dotted path under bindings: js mutates in place
+	RetGetter        = "retgetter"   // A = throw | loop: return an object whose property getter throws / loops (js only)
+	NativeNoEvents   = "nnoevents"   // native only: return an Execution built by hand, without Events
 	SetCycle         = "setcycle"    // A=key: bind a self-referential object (js only)
 	Raw              = "raw"         // A = ECMAScript statements (js only; not modelled)
 )
@@ -129,6 +131,12 @@ func (p *Prog) JS() string {
 			b.WriteString("for (;;) { _.ctx.Value(\"tick\"); }\n")
 		case Tick:
 			b.WriteString("_.ctx.Value(\"tick\");\n")
+		case RetGetter:
+			if o.A == "loop" {
+				b.WriteString("return {get a() { for (;;) { _.ctx.Value(\"tick\"); } }};\n")
+			} else {
+				b.WriteString("return {get a() { throw \"getter\"; }};\n")
+			}
 		case SetCycle:
 			fmt.Fprintf(&b, "var cyc2 = {name: \"a\"}; cyc2.self = cyc2; bs[%s] = cyc2;\n", js(o.A))
 		case Raw:
@@ -176,6 +184,8 @@ func (p *Prog) NativeAction() core.Action {
 			case NativeNilBs:
 				exe.Bs = nil
 				return exe, nil
+			case NativeNoEvents:
+				return &core.Execution{Bs: w}, nil
 			case RetNull:
 				exe.Bs = nil
 				return exe, nil
@@ -289,8 +299,10 @@ func (p *Prog) Model(bs map[string]interface{}) Result {
 			w = map[string]interface{}{}
 		case Emit:
 			out = append(out, clone(o.V))
-		case Throw, RetScalar, RetArray, Spin:
+		case Throw, RetScalar, RetArray, Spin, RetGetter:
 			return Result{Err: true}
+		case NativeNoEvents:
+			return Result{Bs: restore(w), Emitted: nil}
 		case NativeErrPartial:
 			// a native action may hand back a partial Execution together with its error;
 			// the engine adds that Execution's events to the stride
